@@ -26,7 +26,7 @@ def main():
     run = Run("C02", level="proof")
     quick = run.tier != "thorough"
     rng = np.random.default_rng(run.seed)
-    l1 = run.l1(["RenoVerif/Props/C02.lean", "RenoVerif/Lemmas/FormalSum.lean"])
+    l1 = run.l1(["RenoVerif/Props/C02.lean", "RenoVerif/Props/C02Auto.lean", "RenoVerif/Lemmas/FormalSum.lean"])
     if not l1["build_ok"]:
         raise Infra("hand-written Lean library failed to build/audit: " + str(l1.get("bad")) + l1.get("log", "")[-800:])
     import lib_tree as lt
@@ -145,7 +145,7 @@ def main():
             run.cov["search_evaluations"] = run.cov["evaluations"]
             run.cov["evaluations"] = ev0 + run.cov["search_evaluations"]
             run.cov["distinct_nontrivial"] = dn0 + run.cov.get("distinct_nontrivial", 0)
-    run.assumptions += ["numeric assembly of node tensors and the multilinear contraction of a tree are validated by the dense oracle, not proved",
+    run.assumptions += ["the contraction of a tree is proved in an abstract R-algebra (Props/C02Auto.lean); numeric assembly of node tensors and the identification of that algebra with the dense tensor-product operators are validated by the dense oracle, not proved",
                         "the tn package imports only with the print_tree shim (harness/shims)"]
     return run.finish()
 
